@@ -98,7 +98,7 @@ def run(ctx):
         if T.size(t) > 90:
             continue
         ok = SC.judge(ctx, t, rng, select, findings.sqlite_semantic_triggers,
-                      "finding-lane" if finding_lane else "clean", extra_case=case_extra)
+                      "finding-lane" if finding_lane else "clean", extra_case=case_extra, profile=p)
         # metamorphic: full parenthesisation selects the same ids
         if ok and i % 5 == 0:
             rows = __import__("vpmon.gen.rows", fromlist=["x"]).rows_for(scalar.columns_of(t), rng, 120)
